@@ -417,7 +417,7 @@ def _two_inputs(case, ctx):
         ref_m, ref_c, _, _ = util.dense_conditional(J[:n, :n], J[n:, :n], J[n:, n:], mu[:n], mu[n:], Sn, y)
     sd = case["settings"]
     iterative = sd.get("max_cholesky_size") == 0
-    with util.settings_ctx(sd, tight=True, n=n + ns), torch.no_grad():
+    with util.settings_ctx(sd, tight=True, n=n + ns, predict_only=True), torch.no_grad():
         try:
             out = model(xs, Is)
             mean, cov = out.mean, out.covariance_matrix
@@ -483,11 +483,11 @@ def _run_case(case, ctx):
     if case.get("lowrank_fast_first"):
         from vf import attach
 
-        with attach.quiet(), torch.no_grad(), util.settings_ctx(dict(sd, fast_pred_var=True), tight=True, n=joint), S.max_root_decomposition_size(4):
+        with attach.quiet(), torch.no_grad(), util.settings_ctx(dict(sd, fast_pred_var=True), tight=True, n=joint, predict_only=True), S.max_root_decomposition_size(4):
             model(xs)  # a rank-4 LOVE prediction (solves converged as in every other cell): the documented approximation, not compared
         ctx.hit("lowrank_fast_call_first")
     try:
-        with util.settings_ctx(sd, tight=True, n=joint):
+        with util.settings_ctx(sd, tight=True, n=joint, predict_only=True):
             try:
                 lanczos_love = sd.get("fast_pred_var") and sd.get("max_cholesky_size") == 0
                 for attempt in range(3 if lanczos_love else 1):
